@@ -36,7 +36,10 @@ KEY_TAIL = "lost-tail-unreported"
 # f1, f5, f7 have a payload of 4 or 12 bytes = 4 bytes of alignment padding that the size test does not count
 ARGW = {1: [4], 2: [8], 3: [4, 4], 4: [8, 8, 8], 5: [4, 8], 7: [4]}
 ARGSPEC = "f1@arg1/i32;f2@arg1/i64;f3@arg1/i32,arg2/i32;f4@arg1,arg2,arg3;f5@arg1/i32,arg2/i64;f7@arg1/i32"
-ALIGNED_K = [0, 2, 3, 4, 6]
+ALIGNED_K = [0, 2, 3, 4]
+# return values: f2 8 bytes, f6 4 bytes (+ 4 of padding) on the EXIT record
+RETW = {2: 8, 6: 4}
+RETSPEC = "f2@retval/i64;f6@retval/i32"
 
 
 def payload(o):
@@ -47,6 +50,18 @@ def payload(o):
     for w, v in zip(ARGW[o[2]], o[4]):
         out += (v & ((1 << (8 * w)) - 1)).to_bytes(w, "little")
     return out
+
+
+def ret_payload(o):
+    """saved return value bytes of an ("X", t, time, k, val) operation"""
+    if len(o) < 5:
+        return b""
+    w = RETW[o[3]]
+    return (o[4] & ((1 << (8 * w)) - 1)).to_bytes(w, "little")
+
+
+def x_line(o):
+    return "X %d" % o[2] if len(o) < 5 else "XR %d %d" % (o[2], o[4])
 
 
 def e_line(o):
@@ -83,6 +98,7 @@ class Pair:
         env.update(UFTRACE_DIR=self.d, UFTRACE_BUFFER=str(bufsize), UFTRACE_PATTERN="simple")
         if args:
             env["UFTRACE_ARGUMENT"] = ARGSPEC
+            env["UFTRACE_RETVAL"] = RETSPEC
         self.pro = subprocess.Popen(["timeout", "120", exes["pro"]], stdin=subprocess.PIPE, stdout=subprocess.PIPE,
                                     stderr=subprocess.PIPE, text=True, bufsize=1, env=env)
         self.pro_alive = True
@@ -192,7 +208,7 @@ class Pair:
                 n = 16
                 if w & 4:
                     k = ((w >> 16) - self.base - 4) // 256
-                    n += (sum(ARGW.get(k, [])) + 7) & ~7
+                    n += ((sum(ARGW.get(k, [])) if w & 3 == 0 else RETW.get(k, 0)) + 7) & ~7
                 recs.append(data[j:j + n])
                 j += n
             return recs
@@ -295,7 +311,7 @@ def coq_op(o):
     if k == "E":
         return "OpE %d %d%%N %d%%N [%s]%%N" % (o[1], o[2], o[3], "; ".join("%d" % b for b in payload(o)))
     if k == "X":
-        return "OpX %d %d%%N" % (o[1], o[2])
+        return "OpX %d %d%%N [%s]%%N" % (o[1], o[2], "; ".join("%d" % x for x in ret_payload(o)))
     if k == "END":
         return "OpEnd %d" % o[1]
     if k == "FAIL":
@@ -332,7 +348,7 @@ def run_step(ctx, exes, case, n):
             if k == "E":
                 pr.hook(o[1], e_line(o), logs[o[1]])
             elif k == "X":
-                pr.hook(o[1], "X %d" % o[2], logs[o[1]])
+                pr.hook(o[1], x_line(o), logs[o[1]])
             elif k == "END":
                 # TEND runs the thread destructor (shmem_finish) and switches back to thread 0
                 if pr.cur != o[1]:
@@ -382,7 +398,7 @@ def run_soak(ctx, exes, case, n):
             if k == "E":
                 lines.append(e_line(o))
             elif k == "X":
-                lines.append("X %d" % o[2])
+                lines.append(x_line(o))
             elif k == "END":
                 lines.append("TEND")
                 cur = 0
@@ -425,6 +441,7 @@ class Gen:
         self.args = args            # None: no argument capture; "all": every f<k>; "aligned": payloads of 8n bytes only
         self.time = 1000
         self.depth = [0] * nt
+        self.stack = [[] for _ in range(nt)]
         self.ops = []
 
     def tick(self):
@@ -441,10 +458,15 @@ class Gen:
         else:
             self.ops.append(("E", t, k, self.tick()))
         self.depth[t] += 1
+        self.stack[t].append(k)
 
     def leave(self, t):
         if self.depth[t] > 0:
-            self.ops.append(("X", t, self.tick()))
+            k = self.stack[t].pop()
+            if self.args and k in RETW and (self.args == "all" or RETW[k] == 8):
+                self.ops.append(("X", t, self.tick(), k, self.rng.choice([0, 1, 255, (1 << 31) + 3, (1 << 40) + 1, self.rng.getrandbits(63)])))
+            else:
+                self.ops.append(("X", t, self.tick()))
             self.depth[t] -= 1
 
     def leaf(self, t):
@@ -955,9 +977,10 @@ def e2e(ctx, objdir):
         if lossy:
             frm = 2 * (nth + 1) + rng.choice([0, 1, 3])
             env = {"LD_PRELOAD": lib, "C03_SHMFAIL_FROM": str(frm), "C03_SHMFAIL_TO": str(frm + rng.choice([2, 8, 40, 100000]))}
-        rc, o, e = sh(["timeout", "60", uft, "record", "--no-pager", "--no-event", "--no-libcall", "-b", "4k",
+        bsz = rng.choice(["4k", "4k", "4k", "8k", "64k"])
+        rc, o, e = sh(["timeout", "60", uft, "record", "--no-pager", "--no-event", "--no-libcall", "-b", bsz,
                        "--num-thread", str(nw), "--libmcount-path=" + objdir, "-d", dd, exe], timeout=90, env=env)
-        rep = {"mode": "e2e", "program": src, "writers": nw, "env": env, "stderr": e[-600:]}
+        rep = {"mode": "e2e", "program": src, "writers": nw, "buffer": bsz, "env": env, "stderr": e[-600:]}
         if rc != 0:
             ctx.violation("uftrace record failed/timed out on a generated program (rc=%d)" % rc, rep, True)
             continue
@@ -966,7 +989,7 @@ def e2e(ctx, objdir):
         for line in e.splitlines():
             if "LOST" in line and "records" in line:
                 warned += int(line.split("LOST")[1].split()[0])
-        tags = ["e2e", "e2e:threads=%d" % (nth + 1), "e2e:writers=%d" % nw, "e2e:lossy" if lossy else "e2e:lossless"]
+        tags = ["e2e", "e2e:threads=%d" % (nth + 1), "e2e:writers=%d" % nw, "e2e:-b" + bsz, "e2e:lossy" if lossy else "e2e:lossless"]
         ok = len(got) == len(expected)
         why = "" if ok else "%d data files for %d threads" % (len(got), len(expected))
         total_markers = 0
@@ -996,7 +1019,7 @@ def e2e(ctx, objdir):
         if not ok:
             rep["why"] = why
             rep["files"] = {str(t): [list(r) for r in v[0][:60]] for t, v in got.items()}
-            ctx.violation("C03 (end-to-end `uftrace record -b 4k --num-thread %d`): %s" % (nw, why), rep, True)
+            ctx.violation("C03 (end-to-end `uftrace record -b %s --num-thread %d`): %s" % (bsz, nw, why), rep, True)
     ctx.extra["e2e_runs_with_losses"] = nlost_runs
     ctx.log("end-to-end: %d recordings with the real uftrace record, %d with LOST markers" % (ctx.n(5, 24), nlost_runs))
 
